@@ -293,6 +293,7 @@ theorem validPts_drop_invalid (A : CAlg S F) (R : ROps F) (evs : List (Nat × Li
   rw [List.filterMap_filter]
   apply filterMap_congr'
   intro e _
+  dsimp only
   generalize A.isFinite (e.2.getD c A.nan) = b
   cases b <;> simp
 
@@ -331,8 +332,9 @@ theorem bandpassCorrection_eq (A : CAlg S F) (R : ROps F) (dataFreqs calFreqs : 
       = dataFreqs.map fun f =>
           A.inv (if ((calFreqs.zip bp).filter fun p => A.isFinite p.2).isEmpty then A.nan
                  else complexInterp A R .invalid ((calFreqs.zip bp).filter fun p => A.isFinite p.2) f) := by
-  unfold bandpassCorrection
-  split <;> simp_all
+  by_cases h : ((calFreqs.zip bp).filter fun p => A.isFinite p.2).isEmpty = true
+  · simp only [bandpassCorrection, h, if_true, List.map_map, Function.comp_def]
+  · simp only [bandpassCorrection, h, if_false, List.map_map, Function.comp_def, Bool.false_eq_true]
 
 end bandpass
 
@@ -368,7 +370,7 @@ theorem fluxOf_append (a b : List (String × Option F)) (n : String) :
   | some p =>
     have : a.any (·.1 == n) = true := by
       simp only [List.any_eq_true]
-      exact ⟨p, List.mem_of_find?_eq_some h, List.find?_some h⟩
+      exact ⟨p, List.mem_of_find?_eq_some h, by have := List.find?_some h; simpa using this⟩
     simp [this]
 
 end flux
